@@ -168,6 +168,7 @@ class Ctx:
     def dv(self, args, timeout=1800, env=None):
         e = dict(os.environ)
         e["VERIF_SEED"] = str(self.seed)
+        e["DV_RUN_DIR"] = os.path.join(self.work, "run")     # data folders of the instances: removed with the work directory
         if env:
             e.update(env)
         p = subprocess.run(["timeout", str(timeout), DV] + args, cwd=self.work, env=e,
@@ -194,6 +195,7 @@ class Ctx:
         procs = []
         e = dict(os.environ)
         e["VERIF_SEED"] = str(self.seed)
+        e["DV_RUN_DIR"] = os.path.join(self.work, "run")     # data folders of the instances: removed with the work directory
         for i, part in enumerate(parts):
             sp = "%s.%d" % (scen_path, i)
             with open(sp, "w") as f:
@@ -204,8 +206,6 @@ class Ctx:
         with open(trace_path, "w") as out:
             for pr, sp, tp in procs:
                 o, err = pr.communicate()
-                # the harness removes its data folder itself; a killed or crashed one cannot
-                shutil.rmtree(os.path.join(HARNESS, "run", str(pr.pid)), ignore_errors=True)
                 if pr.returncode != 0:
                     log(o[-1500:])
                     log(err[-3000:])
